@@ -238,10 +238,21 @@ pub fn apply(op: usize, s: &mut TypeSpec, d: &mut Dna) -> Option<Fault> {
             let vi = *d.choose(&with_fields);
             let nf = s.variants[vi].fields.len();
             let fi = d.pick(nf);
+            let s_has_ord = s.has(Tr::Ord);
             let f = &mut s.variants[vi].fields[fi];
             let idx: Vec<usize> = (0..f.attrs.len()).filter(|i| !f.attrs[*i].params.is_empty()).collect();
             if idx.is_empty() {
-                return None;
+                // no parameterised attribute on this field: write a doubled one for a trait that takes field parameters
+                let cands: Vec<Tr> = traits.iter().copied().filter(|t| matches!(t, Tr::Debug | Tr::PartialEq | Tr::Hash | Tr::PartialOrd | Tr::Ord)).filter(|t| !(*t == Tr::PartialOrd && s_has_ord)).collect();
+                if cands.is_empty() {
+                    return None;
+                }
+                let t = *d.choose(&cands);
+                let forms = ["ignore, ignore", "ignore = false, ignore(false)", "ignore(false), ignore"];
+                let form = forms[d.pick(forms.len())];
+                f.attrs.retain(|a| !(a.tr == t || (t == Tr::PartialEq && a.tr == Tr::Eq) || (t == Tr::Ord && a.tr == Tr::PartialOrd)));
+                f.raw.push(format!("#[educe({}({form}))]", t.name()));
+                return mk(2, format!("`{form}` on field {vi}.{fi} for {}", t.name()), format!("field/{}/{}", pos_class(fi, nf), t.name()));
             }
             let ai = *d.choose(&idx);
             let a = &mut f.attrs[ai];
@@ -535,7 +546,19 @@ pub fn apply(op: usize, s: &mut TypeSpec, d: &mut Dna) -> Option<Fault> {
         // ---------------------------------------------------------------- O10 parameter not accepted at that position
         10 => {
             let with_fields: Vec<usize> = (0..nv).filter(|i| !s.variants[*i].fields.is_empty()).collect();
-            let choice = d.pick(6);
+            let first = d.pick(6);
+            // the first applicable sub-operator, starting from a generated one
+            let choice = (0..6)
+                .map(|k| (first + k) % 6)
+                .find(|c| match c {
+                    0 => s.has(Tr::Debug) && kind != Kind::Union && (0..nv).any(|i| !s.variants[i].fields.is_empty() && !crate::known::debug_variant_view(s, i).1),
+                    1 => kind == Kind::Union && traits.iter().any(|t| matches!(t, Tr::Debug | Tr::PartialEq | Tr::Hash | Tr::Clone)),
+                    2 => kind == Kind::Enum && nv > 0 && traits.iter().any(|t| !matches!(t, Tr::Into | Tr::Deref | Tr::DerefMut)),
+                    3 => !with_fields.is_empty() && kind != Kind::Union,
+                    4 => kind != Kind::Union,
+                    _ => s.has(Tr::Debug) && kind != Kind::Struct,
+                })
+                .unwrap_or(first);
             match choice {
                 // `name` on a positionally shown field
                 0 if s.has(Tr::Debug) && kind != Kind::Union => {
